@@ -279,19 +279,39 @@ Definition src_enc_check_retry (cf : conf) (m : msg) : N * msg :=
     end
   end.
 
-Definition src_dec_validate_replay (cf : conf) (ins : Z) (errno_ : Z) (c_is_replay_new : Z) (m : msg) : N * msg * Z :=
+Definition src_dec_validate_replay (cf : conf) (clk : Z) (ins : Z) (errno_ : Z) (c_is_replay_new : Z) (m : msg) : N * msg * Z :=
   let l_rc := 0 in
+  let l_now := 0 in
   let l_c__is_replay_new := c_is_replay_new in
   let l_rc := ins in
   match (
     if (l_rc =? 0) then
-      let l_c__is_replay_new := 1 in
-      inl (0%N, m, l_c__is_replay_new)
+      match (
+        let l_now := clk in
+        if (clk =? (- 1)) then
+          inl (e_snafu, m, l_c__is_replay_new)
+        else
+          inr (m, (l_rc, l_now, l_c__is_replay_new, tt))
+      ) with
+      | inl r => inl r
+      | inr (m, (l_rc, l_now, l_c__is_replay_new, tt)) =>
+        match (
+          if (l_now >? ((Z.of_N (m_time0 m)) + (Z.of_N (m_ttl m)))) then
+            inl (e_cred_expired, m, l_c__is_replay_new)
+          else
+            inr (m, (l_rc, l_now, l_c__is_replay_new, tt))
+        ) with
+        | inl r => inl r
+        | inr (m, (l_rc, l_now, l_c__is_replay_new, tt)) =>
+          let l_c__is_replay_new := 1 in
+          inl (0%N, m, l_c__is_replay_new)
+        end
+      end
     else
-      inr (m, (l_rc, l_c__is_replay_new, tt))
+      inr (m, (l_rc, l_now, l_c__is_replay_new, tt))
   ) with
   | inl r => r
-  | inr (m, (l_rc, l_c__is_replay_new, tt)) =>
+  | inr (m, (l_rc, l_now, l_c__is_replay_new, tt)) =>
     match (
       if (l_rc >? 0) then
         if (((negb ((b2z (cf_socket_retry cf)) =? 0)) && ((Z.of_N (m_retry m)) >? 0)) && ((Z.of_N (m_retry m)) <=? (Z.of_N c_retry_attempts))) then
@@ -299,18 +319,18 @@ Definition src_dec_validate_replay (cf : conf) (ins : Z) (errno_ : Z) (c_is_repl
         else
           inl (e_cred_replayed, m, l_c__is_replay_new)
       else
-        inr (m, (l_rc, l_c__is_replay_new, tt))
+        inr (m, (l_rc, l_now, l_c__is_replay_new, tt))
     ) with
     | inl r => r
-    | inr (m, (l_rc, l_c__is_replay_new, tt)) =>
+    | inr (m, (l_rc, l_now, l_c__is_replay_new, tt)) =>
       match (
         if (errno_ =? 12) then
           inl (e_no_memory, m, l_c__is_replay_new)
         else
-          inr (m, (l_rc, l_c__is_replay_new, tt))
+          inr (m, (l_rc, l_now, l_c__is_replay_new, tt))
       ) with
       | inl r => r
-      | inr (m, (l_rc, l_c__is_replay_new, tt)) =>
+      | inr (m, (l_rc, l_now, l_c__is_replay_new, tt)) =>
         (e_snafu, m, l_c__is_replay_new)
       end
     end
